@@ -158,6 +158,20 @@ def e2e_case(binary, case):
                     extra = set(gotmap) - set(want)
                     if extra:
                         bad.append(("datapoint-invented", "%s: %s extra ts %s" % (stage, sel, sorted(extra)[:5])))
+                # sub-range queries: a window ending between two datapoints must return exactly the datapoints inside it,
+                # whatever the order in which they arrived
+                tss = sorted(want)
+                for cut in tss[:-1]:
+                    end = cut + 1
+                    if end in want or len(tss) < 2:
+                        continue
+                    rw = dr.ok("mquery", promql=sel, start=lo, end=end, step=1)
+                    gw = set(p[0] for pts in rw.get("series", {}).values() for p in pts)
+                    ww = set(t for t in want if t <= end)
+                    if "qerr" not in rw and gw != ww:
+                        bad.append(("window", "%s: %s window [%d,%d] returned ts %s, expected %s" % (
+                            stage, sel, lo, end, sorted(gw)[:6], sorted(ww)[:6])))
+                        break
             # by metric name only: exactly the ingested series of that name, each with exactly its tags
             for name in sorted(set(s["name"] for s in series)):
                 exp = sorted(gid_of(s) for si, s in enumerate(series) if s["name"] == name and acc.get(si))
@@ -197,6 +211,57 @@ def e2e_case(binary, case):
     except vlib.DriverDead as e:
         if e.kind == "hang":
             raise vlib.Infra("engine did not answer in time (machine load?): %s" % e)
+        fails.append(("driver-died", str(e)))
+    finally:
+        if dr is not None:
+            dr.quit()
+        vlib.rmtree(d)
+    return fails
+
+
+def identity_case(binary, series, seed):
+    """All series of the SeriesIdentity model in ONE engine: each gets its own value at the same timestamp; by-name queries must
+    return exactly as many series as were ingested, each with its own value; also after block flush and restart."""
+    d = vlib.scratch("c08id")
+    fails = []
+    dr = None
+    try:
+        dr = vlib.Driver(binary)
+        dr.ok("init", dir=d)
+        rnd = random.Random(seed)
+        order = list(range(len(series)))
+        rnd.shuffle(order)
+        t = T0 + 5
+        body = json.dumps([{"metric": series[i]["name"], "tags": {x["k"]: x["v"] for x in series[i]["tags"]}, "timestamp": t,
+                            "value": float(i) + 0.5} for i in order])
+        r = dr.ok("otsdb", body=body)
+        accepted = r["ok"]
+        if r["failed"]:
+            # the ingest API may refuse a tag set (e.g. empty values); refused series are simply not expected back
+            fails.append(("info", "ingest refused %d of %d series" % (r["failed"], len(series))))
+
+        def check(stage):
+            for name in sorted(set(s["name"] for s in series)):
+                mine = [i for i, s in enumerate(series) if s["name"] == name]
+                q = dr.ok("mquery", promql=name, start=t - 10, end=t + 10, step=1)
+                got = q.get("series", {})
+                vals = sorted(p[2] for pts in got.values() for p in pts)
+                want = sorted(float(i) + 0.5 for i in mine)
+                if r["failed"] == 0 and (len(got) != len(mine) or vals != want):
+                    missing = [series[i] for i in mine if float(i) + 0.5 not in vals][:3]
+                    fails.append(("series-merged", "%s: metric %s: %d distinct series ingested, %d returned; values not returned "
+                                  "unchanged for e.g. %s" % (stage, name, len(mine), len(got), json.dumps(missing))))
+        check("open")
+        dr.ok("mblockflush")
+        check("block-flushed")
+        dr.ok("mrotate")
+        dr.quit()
+        dr = vlib.Driver(binary)
+        dr.ok("init", dir=d, wait_ms=400)
+        check("restarted")
+    except vlib.DriverDead as e:
+        if e.kind == "hang":
+            raise vlib.Infra("engine did not answer in time: %s" % e)
         fails.append(("driver-died", str(e)))
     finally:
         if dr is not None:
@@ -263,6 +328,28 @@ def run(chk):
                                  "holds: %s" % drift[0])
     finally:
         vlib.rmtree(sc)
+
+    # ---- series identity (spec/SeriesIdentity.tla): every pair of distinct series must stay two series
+    pairs, rs = vlib.tlc_generate("SeriesIdentity", "Gen_SeriesIdentity.cfg", timeout=600)
+    vlib.tlc_must_hold(rs, "SeriesIdentity")
+    chk.add_tlc("SeriesIdentity", rs, "all ordered pairs of distinct (name, tag set) over the collision alphabet")
+    uniq = {}
+    for p in pairs:
+        for s_ in (p["a"], p["b"]):
+            uniq[json.dumps(s_, sort_keys=True)] = s_
+    all_series = [uniq[k] for k in sorted(uniq)]
+    idf = identity_case(binary, all_series, chk.seed)
+    chk.replayed(len(pairs))
+    chk.count(n=len(pairs))
+    for i in range(len(all_series)):
+        chk.count(("identity", i), nontrivial=True, n=0)
+    chk.cov["series_identity"] = {"pairs": len(pairs), "distinct_series": len(all_series), "notes": [w for k, w in idf if k == "info"]}
+    seen_k = set()
+    for kind, what in idf:
+        if kind == "info" or kind in seen_k:
+            continue
+        seen_k.add(kind)
+        chk.violation("C08:identity:" + kind, what, {"kind": "identity", "series": all_series[:8]})
 
     # ---- (e2e)
     rnd = random.Random(chk.seed)
